@@ -100,7 +100,9 @@ class StagingHelper_Local(object):
         src = ru.Url(src).path
         tgt = ru.Url(tgt).path
         self.mkdir(os.path.dirname(tgt), flags)
-        ru.sh_callout(['cp', '-r', src, tgt])
+        out, err, ret = ru.sh_callout(['cp', '-r', src, tgt])
+        if ret:
+            raise RuntimeError('copy failed: %s -> %s: %s' % (src, tgt, err))
 
     def move(self, src, tgt, flags):
         src = ru.Url(src).path
